@@ -267,10 +267,20 @@ def scenarios(rng, root, base, model):
         fmt = rng.choice(['array', 'plotfile'])
         width = pf.n0[0] * pf.dx0[0]
         posf = (pf.geo_low[0] + width / 2) / width
-        slicename = 'Sx' + f"{posf:.4f}".replace('.', '') + keys[0].replace('(', '').replace(')', '')[:7]
-        d = mpath([4, sp.encode(), slicename.encode()])
+        # the position fraction is printed to four decimals: where the exact fraction sits on a rounding tie, the digit
+        # depends on how the floating-point quotient is formed (from the header's own bounds or from cell counts) - both
+        # spellings of the same documented name are accepted
+        hi0, lo0 = pf.geo_high()[0], pf.geo_low[0]
+        posf2 = ((hi0 + lo0) / 2) / (hi0 - lo0)
+        ds = []
+        for q in (posf, posf2):
+            slicename = 'Sx' + f"{q:.4f}".replace('.', '') + keys[0].replace('(', '').replace(')', '')[:7]
+            d = mpath([4, sp.encode(), slicename.encode()])
+            d = d + '.npz' if fmt == 'array' else d
+            if d not in ds:
+                ds.append(d)
         sc.append((f'mandoline {fmt} (default output)', lambda: Mandoline(sp, fields=[keys[0]], serial=True, verbose=0).slice(
-            normal=0, pos=None, fformat=fmt), [p], [d + '.npz' if fmt == 'array' else d], False))
+            normal=0, pos=None, fformat=fmt), [p], ds, False))
     # tools without outputs
     from amr_kitchen.taste.taste import Taster
     from amr_kitchen.pestle.pestle import volume_integral
